@@ -20,6 +20,7 @@ type dtAtom struct {
 	Val  bool
 	Pos  token.Pos
 	Err  bool // the atom is "<error-typed expression> == nil"
+	Step int  // number of steps executed on the path when the atom was decided
 }
 
 type dtPath struct {
@@ -266,10 +267,10 @@ func (d *dtEnum) cond(p *dtPath, e ast.Expr, k func(p *dtPath, v bool)) {
 		}
 	}
 	t := p.clone()
-	t.Atoms = append(t.Atoms, dtAtom{s, true, e.Pos(), isErr})
+	t.Atoms = append(t.Atoms, dtAtom{s, true, e.Pos(), isErr, len(p.Steps)})
 	k(t, !neg)
 	f := p.clone()
-	f.Atoms = append(f.Atoms, dtAtom{s, false, e.Pos(), isErr})
+	f.Atoms = append(f.Atoms, dtAtom{s, false, e.Pos(), isErr, len(p.Steps)})
 	k(f, neg)
 }
 
